@@ -89,4 +89,8 @@ I_DivOK == ph = 0 \/ DivOK
 I_FloorModOK == ph = 0 \/ FloorModOK
 Row == [k |-> "arith", x |-> tx, y |-> ty]
 Emit == ph = 0 \/ PrintT(ToJson(Row))
+\* C09's world: format pairs whose documented optimal quotient / remainder formats exist (word >= 1); for the others
+\* (only with negative or oversized n_frac) the library has no format to return and rejects the call
+DivFmtsExist == N!GrowTrueDiv(tx, ty).w >= 1 /\ N!GrowFloorDiv(tx, ty).w >= 1 /\ N!GrowMod(tx, ty).w >= 1
+EmitDiv == ph = 0 \/ ~DivFmtsExist \/ PrintT(ToJson(Row))
 =============================================================================
